@@ -3903,6 +3903,107 @@ def replay_sarif_results(a):
         shutil.rmtree(d, ignore_errors=True)
 
 
+def report_builder_total_on_unary(a):
+    """C08: a unary clause that FAILs on a literal variable (`let v = 5`, `%v is_string`) must give a verdict, not a crash. Every consumer
+    of the records (the report builder, the console reporters) has `QueryResult::Literal(_) => unreachable!()` for the recorded value of a
+    unary check. Decided as a producer / consumer pair:
+    (P) record_unary_clause never records a Literal: for a Resolved / UnResolved query result the record's `from` is that value, for a Literal
+        it is Resolved(the literal's value) - although literal variables DO reach it as QueryResult::Literal (resolve_variable/lookup);
+    (C) the report builder does not panic on a Unary record whose value is Resolved or UnResolved"""
+    RT = enum_variants(a.src, "rules/mod.rs", "RecordType")
+    CC = enum_variants(a.src, "rules/mod.rs", "ClauseCheck")
+    QR = enum_variants(a.src, "rules/mod.rs", "QueryResult")
+    ER = struct_fields(a.src, "rules/eval_context.rs", "EventRecord")
+    UVC = struct_fields(a.src, "rules/mod.rs", "UnaryValueCheck")
+    VC = struct_fields(a.src, "rules/mod.rs", "ValueCheck")
+    LIT, RES, UNR = QR.index("Literal"), QR.index("Resolved"), QR.index("UnResolved")
+    # ---- (P)
+    exp = a.exec(r"(?:(?:rules::)?eval::)?record_unary_clause::\{closure#0\}",
+                 {"call": lambda ex, av: ex.fresh_result(ex.havoc("bool"), "op"), "start_record": mirexec.m_result_unit, "end_record": mirexec.m_result_unit,
+                  "clone": mirexec.m_identity, RC_NEW: mirexec.m_identity},
+                 unroll=1, max_paths=4000, deepen=False)
+    a.fns.append("rules::eval::record_unary_clause::{closure#0}")
+    val = exp.arg_env["_2"]
+    dv = disc(exp, val)
+    badp, nrec = [], 0
+    for p in exp.paths:
+        for e in calls(p, "end_record"):
+            rec = e[2][2] if len(e[2]) > 2 else None
+            if not (rec and rec[0] == "variant" and rec[2] == "ClauseValueCheck" and rec[3] and rec[3][0][0] == "variant" and rec[3][0][2] == "Unary"):
+                continue
+            nrec += 1
+            uv = rec[3][0][3][0]
+            vc = uv[2].get("value") if uv[0] == "struct" else None
+            frm = vc[2].get("from") if vc is not None and vc[0] == "struct" else None
+            if frm is None:
+                badp.append(pc_term(p.pc))
+                continue
+            if frm == val:                       # recorded as it came: then it must not be a Literal
+                good = f"(not (= {dv} {LIT}))"
+            elif frm[0] == "variant" and frm[2] == "Resolved" and frm[3] == [exp.proj.get((val[1], "as Literal.0"))]:
+                good = f"(= {dv} {LIT})"
+            else:
+                good = "false"
+            badp.append(f"(and {pc_term(p.pc)} (not {good}))")
+    cp = a.discharge("record_unary_clause/never-records-a-literal", exp, badp,
+                     f"record_unary_clause ({nrec} Unary records over all paths, kind of the value visited symbolic): the recorded value is the value visited when that "
+                     "is Resolved / UnResolved, and Resolved(v) when it is Literal(v) - the reports' `Literal(_) => unreachable!()` arms are never reached")
+    # ---- (C)
+    ex = a.exec(r"(?:(?:rules::)?eval_context::)?report_all_failed_clauses_for_rules",
+                {"next": mirexec.m_iter_next, "into_iter": mirexec.m_new_iter, "iter": mirexec.m_new_iter,
+                 "report_all_failed_clauses_for_rules": lambda ex, av: ex.opq(), "default": lambda ex, av: ex.opq()},
+                log=("push", "extend"), unroll=1, max_paths=60000, deepen=False)
+    a.fns.append("rules::eval_context::report_all_failed_clauses_for_rules (totality on unary records)")
+    bad = []
+    for p in ex.paths:
+        if p.outcome != "panic":
+            continue
+        its = iterations(ex, p, it_filter=lambda ev: ex.iter_src.get(ev[2][0][1], ev[2][0]) == ex.arg_env["_1"])
+        for k, el, tag, _i in its[-1:]:
+            cont = field(ex, el, ER.index("container"), "Option")
+            some = payload(ex, cont, "Some")
+            cl = payload(ex, some, "ClauseValueCheck")
+            un = payload(ex, cl, "Unary")
+            frm = field(ex, field(ex, un, UVC.index("value"), "ValueCheck"), VC.index("from"), "QueryResult")
+            is_unary = (f"(and (= {tag} 1) (= {disc(ex, cont)} 1) (= {disc(ex, some)} {RT.index('ClauseValueCheck')}) (= {disc(ex, cl)} {CC.index('Unary')}) "
+                        f"(or (= {disc(ex, frm)} {RES}) (= {disc(ex, frm)} {UNR})))")
+            bad.append(f"(and {pc_term(p.pc)} {is_unary})")
+    cc = a.discharge("report_all_failed_clauses_for_rules/no-panic-on-unary-records", ex, bad or ["false"],
+                     "report builder, one record: no path that processes a Unary value record whose recorded value is Resolved or UnResolved ends in a "
+                     "panic / unreachable!()")
+    for c in (cp, cc):
+        if c:
+            c["replay"] = replay_unary_on_literal_variable(a)
+            c["reproduced"] = c["replay"].get("reproduced", False)
+            a.candidates.append(c)
+
+
+def replay_unary_on_literal_variable(a):
+    """unary clauses that FAIL on a literal variable (the recorded value is a Literal): a verdict, never a crash"""
+    exe = a.cli()
+    if not exe:
+        return {"reproduced": False, "note": "native build failed"}
+    data = '{"a": 1}\n'
+    prefix = "let n = 5\nlet s = \"x\"\nlet l = [1, 2]\nlet m = {\"k\": 1}\n"
+    cases = [("%n is_string", "FAIL"), ("%s is_int", "FAIL"), ("%l is_struct", "FAIL"), ("%m is_list", "FAIL"), ("%n !exists", "FAIL"), ("%s is_list", "FAIL"),
+             ("%n is_int", "PASS"), ("%s is_string", "PASS"), ("%n exists", "PASS"), ("not %n is_int", "FAIL"), ("%l is_list", "PASS"), ("%s !is_string", "FAIL")]
+    out = a.replay_cases(exe, data, cases, prefix=prefix)
+    # the console reporter walks the same report
+    import os, shutil, subprocess, tempfile
+    d = tempfile.mkdtemp(prefix="cfnverif_replay_")
+    try:
+        open(os.path.join(d, "r.guard"), "w").write(prefix + "rule t {\n  %n is_string\n}\n")
+        open(os.path.join(d, "d.json"), "w").write(data)
+        pr = subprocess.run([exe, "validate", "-r", os.path.join(d, "r.guard"), "-d", os.path.join(d, "d.json")], capture_output=True, text=True, timeout=60)
+        if pr.returncode != 19:
+            out["mismatches"].append({"cmd": "validate (console)", "clause": "%n is_string", "expected_exit": 19, "observed_exit": pr.returncode,
+                                      "stderr": pr.stderr[-200:]})
+            out["reproduced"] = True
+    finally:
+        shutil.rmtree(d, ignore_errors=True)
+    return out
+
+
 def scope_delegations(a):
     """the one-line scope methods: a scope that has no state of its own for a question hands it, unchanged, to the scope / recorder that
     has - and touches nothing else (in particular no memo table is written from a record passing through)"""
@@ -4050,5 +4151,5 @@ SITES = {
     "C04": [rule_status_semantics, root_scope_rule_table, scope_delegations, scope_resolution],
     "C01": [rule_status_semantics, root_scope_rule_table, scope_discipline, scope_resolution, scope_delegations, variable_tables],
     "C17": [merge_map, merge_unwrap, param_files_fold_step, data_input_params_wiring, structured_merge_closure, supported_extension_predicate],
-    "C08": [merge_unwrap, rulegen_unwrap, test_exit_code_domain],
+    "C08": [merge_unwrap, rulegen_unwrap, test_exit_code_domain, report_builder_total_on_unary],
 }
